@@ -1,5 +1,132 @@
+import BlockCiphers.Proofs.AesNi
+import BlockCiphers.Proofs.AesNiBytes
+import BlockCiphers.Proofs.AesNiPar
+import BlockCiphers.Proofs.AesSboxTable
+import BlockCiphers.Proofs.AesFixslice
 /-
-C02 — theorem file (property theorems only).  Filled in as the models it needs are merged; see DESIGN §7 C02.
+C02 — AES types compute FIPS-197 under every backend and key size
+GENERATED statement file (tools/gen_thm.py): every theorem below restates, verbatim, a theorem of a Proofs/ module
+and is proved by applying it.  ONLY property theorems and non-vacuity examples live in Thm/.
+AES-NI model = FIPS-197 (Spec/Aes.lean: computed S-box, MixColumns as the matrix product, KeyExpansion) for the three key sizes, all keys,
+all blocks, both directions, incl. the 9-lane parallel form; fixslice64 and fixslice32, normal and compact = FIPS-197 likewise (soft_conforms_N).
+ARMv8: not modelled (no aarch64 execution environment; DESIGN §4.4).
 -/
-namespace BC.Thm.C02
-end BC.Thm.C02
+
+namespace BC.AesNi
+open BC BC.X86 BC.Spec.Aes
+theorem C02.encrypt128_eq_spec (key : BitVec 128) (b : BitVec 128) :
+    encrypt128 key b = Spec.Aes.encrypt (unpackBE 16 key) b :=
+  _root_.BC.AesNi.encrypt128_eq_spec key b
+end BC.AesNi
+
+namespace BC.AesNi
+open BC BC.X86 BC.Spec.Aes
+theorem C02.decrypt128_eq_spec (key : BitVec 128) (b : BitVec 128) :
+    decrypt128 key b = Spec.Aes.decrypt (unpackBE 16 key) b :=
+  _root_.BC.AesNi.decrypt128_eq_spec key b
+end BC.AesNi
+
+namespace BC.AesNi
+open BC BC.X86 BC.Spec.Aes
+theorem C02.encrypt192_eq_spec (key : BitVec 192) (b : BitVec 128) :
+    encrypt192 key b = Spec.Aes.encrypt (unpackBE 24 key) b :=
+  _root_.BC.AesNi.encrypt192_eq_spec key b
+end BC.AesNi
+
+namespace BC.AesNi
+open BC BC.X86 BC.Spec.Aes
+theorem C02.decrypt192_eq_spec (key : BitVec 192) (b : BitVec 128) :
+    decrypt192 key b = Spec.Aes.decrypt (unpackBE 24 key) b :=
+  _root_.BC.AesNi.decrypt192_eq_spec key b
+end BC.AesNi
+
+namespace BC.AesNi
+open BC BC.X86 BC.Spec.Aes
+theorem C02.encrypt256_eq_spec (key : BitVec 256) (b : BitVec 128) :
+    encrypt256 key b = Spec.Aes.encrypt (unpackBE 32 key) b :=
+  _root_.BC.AesNi.encrypt256_eq_spec key b
+end BC.AesNi
+
+namespace BC.AesNi
+open BC BC.X86 BC.Spec.Aes
+theorem C02.decrypt256_eq_spec (key : BitVec 256) (b : BitVec 128) :
+    decrypt256 key b = Spec.Aes.decrypt (unpackBE 32 key) b :=
+  _root_.BC.AesNi.decrypt256_eq_spec key b
+end BC.AesNi
+
+namespace BC.AesNi
+open BC BC.X86 BC.Spec.Aes
+open BC.Models.Aes
+/-- `new_from_slice` accepts exactly the key length of the family (C11 for the AES types) -/
+theorem C02.newEnc_isSome (f : Fam) (k : Bytes) : (newEnc f k).isSome ↔ k.length = f.keyLen :=
+  _root_.BC.AesNi.newEnc_isSome f k
+end BC.AesNi
+
+namespace BC.AesNi
+open BC BC.X86 BC.Spec.Aes
+open BC.Models.Aes
+/-- what an accepted key produces, per family: the combined type computes FIPS-197 in both directions -/
+theorem C02.newCombined_spec (f : Fam) (k : Bytes) (h : k.length = f.keyLen) :
+    ∃ c, newCombined f k = some c ∧
+      (∀ b, c.encrypt_block b = Spec.Aes.encrypt k b) ∧ (∀ b, c.decrypt_block b = Spec.Aes.decrypt k b) :=
+  _root_.BC.AesNi.newCombined_spec f k h
+end BC.AesNi
+
+namespace BC.AesNi
+open BC BC.X86
+/-- `encrypt_par` = lane-wise `encrypt` whenever the key array has one of the three legal sizes -/
+theorem C02.encrypt_par_eq_map (keys bs : List (BitVec 128)) (h : keys.length = 11 ∨ keys.length = 13 ∨ keys.length = 15) :
+    encrypt_par keys bs = bs.map (encrypt keys) :=
+  _root_.BC.AesNi.encrypt_par_eq_map keys bs h
+end BC.AesNi
+
+namespace BC.AesNi
+open BC BC.X86
+/-- `decrypt_par` = lane-wise `decrypt` whenever the key array has one of the three legal sizes -/
+theorem C02.decrypt_par_eq_map (keys bs : List (BitVec 128)) (h : keys.length = 11 ∨ keys.length = 13 ∨ keys.length = 15) :
+    decrypt_par keys bs = bs.map (decrypt keys) :=
+  _root_.BC.AesNi.decrypt_par_eq_map keys bs h
+end BC.AesNi
+
+namespace BC.Spec.Aes
+theorem C02.sboxT_eq (x : BitVec 8) : sboxT x = sbox x :=
+  _root_.BC.Spec.Aes.sboxT_eq x
+end BC.Spec.Aes
+
+namespace BC.Spec.Aes
+theorem C02.invSboxT_eq (x : BitVec 8) : invSboxT x = invSbox x :=
+  _root_.BC.Spec.Aes.invSboxT_eq x
+end BC.Spec.Aes
+
+namespace BC.AesSoft
+open BC BC.Spec.Aes
+/-- C02: every software backend computes FIPS-197 AES-128 on single blocks -/
+theorem C02.soft_conforms_128 (kb : Bytes) (h : kb.length = 16) (x : BitVec 128) :
+    (AesFs64.single (AesFs64.aes128_encrypt (AesFs64.rkFn (AesFs64.aes128_key_schedule (packBE 16 kb)))) x = Spec.Aes.encrypt kb x ∧ AesFs64.single (AesFs64.aes128_decrypt (AesFs64.rkFn (AesFs64.aes128_key_schedule (packBE 16 kb)))) x = Spec.Aes.decrypt kb x) ∧
+    (AesFs64.single (AesFs64.aes128_encrypt_compact (AesFs64.rkFn (AesFs64.aes128_key_schedule_compact (packBE 16 kb)))) x = Spec.Aes.encrypt kb x ∧ AesFs64.single (AesFs64.aes128_decrypt_compact (AesFs64.rkFn (AesFs64.aes128_key_schedule_compact (packBE 16 kb)))) x = Spec.Aes.decrypt kb x) ∧
+    (AesFs32.single (AesFs32.aes128_encrypt (AesFs32.rkFn (AesFs32.aes128_key_schedule (packBE 16 kb)))) x = Spec.Aes.encrypt kb x ∧ AesFs32.single (AesFs32.aes128_decrypt (AesFs32.rkFn (AesFs32.aes128_key_schedule (packBE 16 kb)))) x = Spec.Aes.decrypt kb x) ∧
+    (AesFs32.single (AesFs32.aes128_encrypt_compact (AesFs32.rkFn (AesFs32.aes128_key_schedule_compact (packBE 16 kb)))) x = Spec.Aes.encrypt kb x ∧ AesFs32.single (AesFs32.aes128_decrypt_compact (AesFs32.rkFn (AesFs32.aes128_key_schedule_compact (packBE 16 kb)))) x = Spec.Aes.decrypt kb x) :=
+  _root_.BC.AesSoft.soft_conforms_128 kb h x
+end BC.AesSoft
+
+namespace BC.AesSoft
+open BC BC.Spec.Aes
+/-- C02: every software backend computes FIPS-197 AES-192 on single blocks -/
+theorem C02.soft_conforms_192 (kb : Bytes) (h : kb.length = 24) (x : BitVec 128) :
+    (AesFs64.single (AesFs64.aes192_encrypt (AesFs64.rkFn (AesFs64.aes192_key_schedule (packBE 24 kb)))) x = Spec.Aes.encrypt kb x ∧ AesFs64.single (AesFs64.aes192_decrypt (AesFs64.rkFn (AesFs64.aes192_key_schedule (packBE 24 kb)))) x = Spec.Aes.decrypt kb x) ∧
+    (AesFs64.single (AesFs64.aes192_encrypt_compact (AesFs64.rkFn (AesFs64.aes192_key_schedule_compact (packBE 24 kb)))) x = Spec.Aes.encrypt kb x ∧ AesFs64.single (AesFs64.aes192_decrypt_compact (AesFs64.rkFn (AesFs64.aes192_key_schedule_compact (packBE 24 kb)))) x = Spec.Aes.decrypt kb x) ∧
+    (AesFs32.single (AesFs32.aes192_encrypt (AesFs32.rkFn (AesFs32.aes192_key_schedule (packBE 24 kb)))) x = Spec.Aes.encrypt kb x ∧ AesFs32.single (AesFs32.aes192_decrypt (AesFs32.rkFn (AesFs32.aes192_key_schedule (packBE 24 kb)))) x = Spec.Aes.decrypt kb x) ∧
+    (AesFs32.single (AesFs32.aes192_encrypt_compact (AesFs32.rkFn (AesFs32.aes192_key_schedule_compact (packBE 24 kb)))) x = Spec.Aes.encrypt kb x ∧ AesFs32.single (AesFs32.aes192_decrypt_compact (AesFs32.rkFn (AesFs32.aes192_key_schedule_compact (packBE 24 kb)))) x = Spec.Aes.decrypt kb x) :=
+  _root_.BC.AesSoft.soft_conforms_192 kb h x
+end BC.AesSoft
+
+namespace BC.AesSoft
+open BC BC.Spec.Aes
+/-- C02: every software backend computes FIPS-197 AES-256 on single blocks -/
+theorem C02.soft_conforms_256 (kb : Bytes) (h : kb.length = 32) (x : BitVec 128) :
+    (AesFs64.single (AesFs64.aes256_encrypt (AesFs64.rkFn (AesFs64.aes256_key_schedule (packBE 32 kb)))) x = Spec.Aes.encrypt kb x ∧ AesFs64.single (AesFs64.aes256_decrypt (AesFs64.rkFn (AesFs64.aes256_key_schedule (packBE 32 kb)))) x = Spec.Aes.decrypt kb x) ∧
+    (AesFs64.single (AesFs64.aes256_encrypt_compact (AesFs64.rkFn (AesFs64.aes256_key_schedule_compact (packBE 32 kb)))) x = Spec.Aes.encrypt kb x ∧ AesFs64.single (AesFs64.aes256_decrypt_compact (AesFs64.rkFn (AesFs64.aes256_key_schedule_compact (packBE 32 kb)))) x = Spec.Aes.decrypt kb x) ∧
+    (AesFs32.single (AesFs32.aes256_encrypt (AesFs32.rkFn (AesFs32.aes256_key_schedule (packBE 32 kb)))) x = Spec.Aes.encrypt kb x ∧ AesFs32.single (AesFs32.aes256_decrypt (AesFs32.rkFn (AesFs32.aes256_key_schedule (packBE 32 kb)))) x = Spec.Aes.decrypt kb x) ∧
+    (AesFs32.single (AesFs32.aes256_encrypt_compact (AesFs32.rkFn (AesFs32.aes256_key_schedule_compact (packBE 32 kb)))) x = Spec.Aes.encrypt kb x ∧ AesFs32.single (AesFs32.aes256_decrypt_compact (AesFs32.rkFn (AesFs32.aes256_key_schedule_compact (packBE 32 kb)))) x = Spec.Aes.decrypt kb x) :=
+  _root_.BC.AesSoft.soft_conforms_256 kb h x
+end BC.AesSoft
